@@ -70,10 +70,22 @@ func quoteASCII(s string) string {
 // escapes, '.', ',', parentheses, spaces):
 //
 //	ArgList := [ Expr { ',' Expr } [ '...' ] [ ',' ] ]
-//	Expr    := Primary { '.' ident | '.' '(' Type ')' | '(' ArgList ')' }
+//	Expr    := Unary { '/' Unary }            (comments are rejected up front)
+//	Unary   := Primary { '.' ident | '.' '(' Type ')' | '(' ArgList ')' }
 //	Primary := ident | string | '(' Expr ')'
 //	Type    := ident { '.' ident } | '(' Type ')'
 func goArgListOK(a string) bool {
+	// a comment swallows the closing parenthesis of the call (line comment) or cannot be closed over the
+	// alphabets used here (block comment needs '*')
+	inStr := false
+	for i := 0; i+1 < len(a); i++ {
+		if a[i] == '"' {
+			inStr = !inStr
+		}
+		if !inStr && a[i] == '/' && (a[i+1] == '/' || a[i+1] == '*') {
+			return false
+		}
+	}
 	p := &argParser{s: a}
 	if !p.argList() {
 		return false
@@ -165,7 +177,21 @@ func (p *argParser) primary() bool {
 	return p.ident()
 }
 
+// expr: a chain of unary expressions joined by the binary operator '/' (the only operator in the alphabets)
 func (p *argParser) expr() bool {
+	if !p.unary() {
+		return false
+	}
+	for p.peek() == '/' {
+		p.i++
+		if !p.unary() {
+			return false
+		}
+	}
+	return true
+}
+
+func (p *argParser) unary() bool {
 	if !p.primary() {
 		return false
 	}
@@ -316,19 +342,12 @@ func init() {
 			}
 			// (1) strings
 			var strs []string
-			var gen func(cur string, n int)
-			gen = func(cur string, n int) {
-				if n > 0 && (strings.Contains(cur, "%") || len([]rune(cur)) <= 3) {
+			// shorter strings first: a time cap leaves a completed length bound behind
+			words(c03sigma, L, func(cur string) {
+				if cur != "" && (strings.Contains(cur, "%") || len([]rune(cur)) <= 3) {
 					strs = append(strs, cur)
 				}
-				if n == L {
-					return
-				}
-				for _, ch := range c03sigma {
-					gen(cur+ch, n+1)
-				}
-			}
-			gen("", 0)
+			})
 			strs = append(strs, "")
 			declared := map[string]bool{"a": true, "p": true, "a.p": true}
 			fns := map[string]bool{"a": true, "p": true, "env": true, "envInt": true, "todo": true}
